@@ -5,6 +5,7 @@ It evaluates the *extracted expression tree* over concrete representatives of a 
 (constant propagation over a finite lattice).  Anything outside the supported fragment raises Unsupported, which
 the caller turns into a fail-closed anchor report.  sea-query itself is never compiled-and-run by this."""
 from . import hir as H
+from .facts import walk
 
 
 class Unsupported(Exception):
@@ -68,6 +69,15 @@ class _Return(Exception):
 class _Break(Exception):
     def __init__(self, v=None):
         self.v = v
+
+
+_ABSENT = object()
+
+
+def depth_is_inner(e):
+    """the outermost block of a function body keeps its bindings (nothing outside can see them anyway, and callers of
+    ev() on a bare body read locals from the environment afterwards)"""
+    return not e.get("_outer")
 
 
 def walk_pat(p):
@@ -309,12 +319,28 @@ class Interp:
         if k == "array":
             return [self.ev(x, env, depth) for x in e["es"]]
         if k == "block":
-            env2 = env  # Rust shadowing is by name; good enough for the tabulated fragments (no closures capturing)
+            # one environment per function (assignments to outer locals must persist), but names bound by a `let` of this
+            # block shadow the outer binding only until the block ends
+            env2 = env
+            shadow = {}
             for s in e.get("stmts") or []:
-                self.ev(s, env2, depth)
-            if e.get("expr") is not None:
-                return self.ev(e["expr"], env2, depth)
-            return ()
+                if isinstance(s, dict) and s.get("k") == "stmt_let":
+                    for nm in walk_pat(s.get("pat")):
+                        if nm not in shadow:
+                            shadow[nm] = env[nm] if nm in env else _ABSENT
+            try:
+                for s in e.get("stmts") or []:
+                    self.ev(s, env2, depth)
+                if e.get("expr") is not None:
+                    return self.ev(e["expr"], env2, depth)
+                return ()
+            finally:
+                if depth_is_inner(e):
+                    for nm, old in shadow.items():
+                        if old is _ABSENT:
+                            env.pop(nm, None)
+                        else:
+                            env[nm] = old
         if k == "semi":
             self.ev(e["e"], env, depth)
             return ()
@@ -328,6 +354,24 @@ class Interp:
             return ()
         if k == "if":
             c = e["cond"]
+            bound = set()
+            for n_ in walk(c):
+                if n_.get("k") == "let":
+                    bound |= set(walk_pat(n_.get("pat")))
+            if bound:
+                # `if let PAT = x { .. }`: the names bound by PAT are visible in the then-branch only and shadow outer ones there
+                env2 = dict(env)
+                taken = self.cond(c, env2, depth)
+                if taken:
+                    try:
+                        return self.ev(e["then"], env2, depth)
+                    finally:
+                        for kk in env:
+                            if kk in env2 and kk not in bound:
+                                env[kk] = env2[kk]
+                if e.get("else") is not None:
+                    return self.ev(e["else"], env, depth)
+                return ()
             taken = self.cond(c, env, depth)
             if taken:
                 return self.ev(e["then"], env, depth)
@@ -344,13 +388,15 @@ class Interp:
                 if self.bind(arm["pat"], v, env2):
                     if arm.get("guard") is not None and not self._bool(self.ev(arm["guard"], env2, depth)):
                         continue
-                    env.update({kk: vv for kk, vv in env2.items() if kk in env})  # assignments to outer locals persist
+                    bound = set(walk_pat(arm["pat"]))
+                    env.update({kk: vv for kk, vv in env2.items() if kk in env and kk not in bound})  # assignments made by the guard persist
                     try:
                         r = self.ev(arm["body"], env2, depth)
                     finally:
-                        # also when the arm leaves through continue / break / return
+                        # also when the arm leaves through continue / break / return; names bound by the arm's own pattern
+                        # shadow the outer ones and are not copied back
                         for kk in env:
-                            if kk in env2:
+                            if kk in env2 and kk not in bound:
                                 env[kk] = env2[kk]
                     return r
             raise Unsupported("no match arm applies")
@@ -493,6 +539,28 @@ class Interp:
                 return self.builtins[key](self, recv + args)
         if c in ("alloc::vec::Vec::<T>::new", "alloc::vec::Vec::<T>::with_capacity") or decl in ("alloc::vec::Vec::<T>::new", "alloc::vec::Vec::<T>::with_capacity"):
             return []
+        # the `?` operator: Try::branch / FromResidual::from_residual on Result and Option
+        if decl == "core::ops::try_trait::Try::branch":
+            v = self.ev(e["args"][0], env, depth)
+            if isinstance(v, tuple) and len(v) == 2 and v[0] in ("Ok", "__some"):
+                return Var("core::ops::control_flow::ControlFlow::Continue", [v[1]])
+            if isinstance(v, Var) and v.d == "core::result::Result::Ok":
+                return Var("core::ops::control_flow::ControlFlow::Continue", [v.fields[0]])
+            if v is None or (isinstance(v, tuple) and len(v) == 2 and v[0] == "Err") or (isinstance(v, Var) and v.d == "core::result::Result::Err"):
+                return Var("core::ops::control_flow::ControlFlow::Break", [v])
+            raise Unsupported("? on %r" % (v,))
+        if decl == "core::ops::try_trait::FromResidual::from_residual":
+            return self.ev(e["args"][0], env, depth)
+        if decl == "core::default::Default::default" and e.get("k") == "call":
+            ty = self.f.ty(e.get("ty")) or ""
+            if ty.startswith("alloc::vec::Vec"):
+                return []
+            if ty.startswith("core::option::Option"):
+                return None
+            if ty == "alloc::string::String":
+                return ""
+            if ty == "bool":
+                return False
         # core::mem::take / replace on a place: read it, then store the replacement (Default::default() of its type)
         if decl in ("core::mem::take", "core::mem::replace") and e.get("k") == "call":
             target = H.peel_ref(e["args"][0])
@@ -696,4 +764,7 @@ def _any(it, recv, args, depth):
 ITER_BUILTINS = {"chars": _chars, "take": _take, "all": _all, "any": _any,
                  "enumerate": lambda it, r, a, d: [(i, x) for i, x in enumerate(list(r))],
                  "iter": lambda it, r, a, d: list(r), "into_iter": lambda it, r, a, d: list(r),
-                 "skip": lambda it, r, a, d: list(r)[a[0]:], "rev": lambda it, r, a, d: list(reversed(list(r)))}
+                 "skip": lambda it, r, a, d: list(r)[a[0]:], "rev": lambda it, r, a, d: list(reversed(list(r))),
+                 "collect": lambda it, r, a, d: list(r), "cloned": lambda it, r, a, d: list(r), "copied": lambda it, r, a, d: list(r),
+                 "first": lambda it, r, a, d: (("__some", list(r)[0]) if list(r) else None),
+                 "last": lambda it, r, a, d: (("__some", list(r)[-1]) if list(r) else None)}
